@@ -58,6 +58,10 @@ CLAIMED['C11'] = ('Coq proofs over Model/Runner.v: teardown discipline by a trac
 CLAIMED['C19'] = ('Coq trace-shape proof over Model/Runner.v (exit code = function of the failure reports; body ++ close ++ teardowns ++ marker) + correspondence/oracle for all runners',
          'proof: serial runner - the exit code is 0 iff no failure was reported, 1 iff only TaskFailed failures, 2 iff some error kind, 3 when a cycle is diagnosed; success reports are preceded by save_success and failure reports by remove_success [C19_serial_outcome, C19_exit_code_table].  One-final-report-per-task and report truthfulness for all runners (incl. reports forwarded from worker processes) are checked by the oracle on every implementation trace.  The built-in reporters text/JSON output is not modelled yet',
          'trusted: as C01', 'DESIGN.md 5-C19')
+CLAIMED['C18'] = ('Coq theorems over Model/Loader.v (load_tasks/generate_tasks/flat_generator, dict_to_task, Task.__init__ validation over type-tagged values, TaskControl.__init__ checks) by induction over the item structure + exhaustive single/pair-fault correspondence against load_tasks + TaskControl + DoitMain',
+         'proof: for every list of task-creators (any nesting, any attribute subset, any top-level type tag, Task objects, delayed creators) loading never ends in an internal exception [C18_total]; on success names are unique and in definition/yield order, sub-tasks are attached to their group which lists them in yield order, targets unique, every task_dep/setup/calc_dep/getargs reference names a task of the set; unknown fields, wrong types (documented table), duplicates, command-name clashes, missing actions/name, dangling references are rejected.  Seven defect families found by the faithful model were repaired in /repo (fix: commits) and are kept as legacy-refuted witnesses',
+         'trusted: Coq kernel; hand model Model/Loader.v tied by 6767 (quick) / 33843 (thorough) cases: every attribute x every type tag x 4 item positions, element faults, rule cases, random namespaces, sample through DoitMain; creator ordering is an input; @task_params, result_dep objects, BaseAction instances, set iteration order of file_dep not modelled; fnmatch oracle',
+         'DESIGN.md 5-C18')
 NOT_YET = {}
 
 def main():
